@@ -837,5 +837,82 @@ func c15R5(p *core.Program, r *core.Report, evalNode *ssa.Function) {
 			sameOp = true
 		}
 	})
+	// every simplified child is kept: inside the loop that switches on the child's type, a path back to the loop
+	// header that appends nothing must have failed the assertion for every node type (so it cannot happen)
+	{
+		var first *ssa.TypeAssert
+		core.EachInstr(simp, false, func(_ *ssa.Function, in ssa.Instruction) {
+			if ta, ok := in.(*ssa.TypeAssert); ok && ta.CommaOk && core.ShortType(ta.X.Type()) == "contactql.QueryNode" {
+				if first == nil || ta.Block().Dominates(first.Block()) {
+					first = ta
+				}
+			}
+		})
+		dropped := ""
+		if first == nil {
+			dropped = "no switch over the child's node type was found"
+		} else {
+			var header *ssa.BasicBlock
+			for _, b := range simp.Blocks {
+				for _, sc := range b.Succs {
+					if sc.Dominates(b) && sc.Dominates(first.Block()) && (header == nil || header.Dominates(sc)) {
+						header = sc
+					}
+				}
+			}
+			type st struct {
+				b      *ssa.BasicBlock
+				failed string
+			}
+			seen := map[st]bool{}
+			var walk func(b *ssa.BasicBlock, failed map[string]bool)
+			walk = func(b *ssa.BasicBlock, failed map[string]bool) {
+				if dropped != "" {
+					return
+				}
+				key := st{b, strings.Join(core.SortedKeys(failed), ",")}
+				if seen[key] {
+					return
+				}
+				seen[key] = true
+				for _, in := range b.Instrs {
+					if c, ok := in.(*ssa.Call); ok {
+						if bi, ok := c.Call.Value.(*ssa.Builtin); ok && bi.Name() == "append" {
+							return // this iteration keeps (or flattens) the child
+						}
+					}
+				}
+				if b == header || header == nil {
+					var miss []string
+					for _, im := range impls {
+						if !failed[im] {
+							miss = append(miss, im)
+						}
+					}
+					if len(miss) > 0 {
+						dropped = "a child of type " + strings.Join(miss, " or ") + " reaches the next iteration without being appended"
+					}
+					return
+				}
+				iff, isIf := b.Instrs[len(b.Instrs)-1].(*ssa.If)
+				for k, sc := range b.Succs {
+					f2 := failed
+					if isIf && k == 1 {
+						if ex, ok := iff.Cond.(*ssa.Extract); ok && ex.Index == 1 {
+							if ta, ok := ex.Tuple.(*ssa.TypeAssert); ok && ta.X == first.X {
+								f2 = map[string]bool{core.ShortType(ta.AssertedType): true}
+								for k2 := range failed {
+									f2[k2] = true
+								}
+							}
+						}
+					}
+					walk(sc, f2)
+				}
+			}
+			walk(first.Block(), map[string]bool{})
+		}
+		r.Check(dropped == "", "R5", "BoolCombination.Simplify/keeps-every-child", p.Pos(simp.Pos()), "every simplified child is appended (or flattened) in its iteration", "Simplify loses children: "+dropped+" — the simplified query has fewer conditions than the one that was parsed")
+	}
 	r.Check(sameOp, "R5", "BoolCombination.Simplify/flattens-same-operator-only", p.Pos(simp.Pos()), "child.op == parent.op guards the flattening", "Simplify merges a child combination into its parent without comparing their operators: (a OR b) AND c would change meaning")
 }
